@@ -234,7 +234,7 @@ class FunctionEffects:
 
     def _elements(self, base):
         """what indexing / iterating an object with alias set `base` hands out"""
-        return {r for r in base if r.split(".")[0] in self.containers or r in self.containers} | \
+        return {r for r in base if r.split(".")[0] in self.containers or r in self.containers or r.startswith("<result of")} | \
             {r[len(ELEM):] for r in base if r.startswith(ELEM)}
 
     def _comp_elt_may_alias(self, comp):
@@ -312,6 +312,14 @@ class FunctionEffects:
                             a = self.expr_alias(v, s)
                             key = (id(s), t.id)
                             if not a <= self.alias.get(key, set()):
+                                self.alias[key] = self.alias.get(key, set()) | a
+                                changed = True
+                        elif isinstance(t, ast.Attribute) and getattr(self, "deep_attrs", False) and isinstance(t.value, ast.Name):
+                            # modeling objects: `newobj._linear = objective._linear` makes the parts of
+                            # newobj share storage with whatever the value aliases
+                            a = _as_elements(self.expr_alias(v, s))
+                            key = self._owner_key(t.value.id, s)
+                            if key and a and not a <= self.alias.get(key, set()):
                                 self.alias[key] = self.alias.get(key, set()) | a
                                 changed = True
                         elif isinstance(t, ast.Subscript):
@@ -426,7 +434,7 @@ class FunctionEffects:
             for n in pf._scope_nodes(s):
                 for tgt, how in self._sink_targets(n, s):
                     al = self.expr_alias(tgt, s)
-                    callw = how.startswith("written by")
+                    callw = how.startswith("written by") or (getattr(self, "deep_attrs", False) and how.startswith("augmented assignment"))
                     if callw:
                         al = al | {r[len(ELEM):] for r in al if r.startswith(ELEM)}   # a callee may write the elements
                     # writing into an element of a container root: x in `dims['q'].append` handled by expr_alias
